@@ -238,6 +238,11 @@ func isErrorType(t types.Type) bool {
 func (f *frame) applyContract(callee *ssa.Function, con *Contract, args []Val, st *State, pos token.Pos, name string, resT types.Type) Val {
 	c := f.c
 	g := c.g
+	for i := range callee.Params {
+		if i < len(args) && args[i].T == "" && args[i].Tuple == nil {
+			subsetf("interior pointer passed to %s (argument %d)", FuncKey(callee), i)
+		}
+	}
 	pre := st.clone()
 	mkEnv := func(cur *State) *SpecEnv {
 		env := &SpecEnv{G: g, Pkg: callee.Pkg.Pkg, Vars: map[string]SV{}, Cur: cur, Old: pre, Next0: pre.next}
@@ -362,10 +367,10 @@ func (f *frame) appendHeaps(st *State, et types.Type, s, t string, inplace strin
 	for _, h := range c.g.elemHeaps(et) {
 		cur := st.Heap(h)
 		nh := c.declare(h, c.g.TE.heapSort[h])
-		srcT := fmt.Sprintf("(select %s (elem (sarr %s) (- (+ (soff %s) (eidx r)) (+ (soff %s) (slen %s)))))", cur, t, t, s, s)
+		srcT := fmt.Sprintf("(select %s (selem %s (- (eidx r) (+ (soff %s) (slen %s)))))", cur, t, s, s)
 		inpl := fmt.Sprintf("(ite (and ((_ is elem) r) (= (earr r) (sarr %s)) (<= (+ (soff %s) (slen %s)) (eidx r)) (< (eidx r) (+ (soff %s) (slen %s) %s))) %s (select %s r))", s, s, s, s, s, n, srcT, cur)
-		srcS := fmt.Sprintf("(select %s (elem (sarr %s) (+ (soff %s) (eidx r))))", cur, s, s)
-		srcT2 := fmt.Sprintf("(select %s (elem (sarr %s) (+ (soff %s) (- (eidx r) (slen %s)))))", cur, t, t, s)
+		srcS := fmt.Sprintf("(select %s (selem %s (eidx r)))", cur, s)
+		srcT2 := fmt.Sprintf("(select %s (selem %s (- (eidx r) (slen %s))))", cur, t, s)
 		fresh := fmt.Sprintf("(ite (and ((_ is elem) r) (= (earr r) %s) (<= 0 (eidx r)) (< (eidx r) (slen %s))) %s (ite (and ((_ is elem) r) (= (earr r) %s) (<= (slen %s) (eidx r)) (< (eidx r) (+ (slen %s) %s))) %s (select %s r)))", newArr, s, srcS, newArr, s, s, n, srcT2, cur)
 		c.assume(st, fmt.Sprintf("(forall ((r Ref)) (! (= (select %s r) (ite %s %s %s)) :pattern ((select %s r))))", nh, inplace, inpl, fresh, nh))
 		st.heaps[h] = nh
